@@ -91,6 +91,9 @@ var table = []routeDef{
 	{method: "GET", pattern: "/auth/x", hid: 10, kind: "static", chain: "abort"},
 	{method: "GET", pattern: "/auth/:u", hid: 11, kind: "param", chain: "abort"},
 	{method: "GET", pattern: "/boom", hid: 12, kind: "static", chain: "panic"},
+	// a middleware that replaces c.Response for the rest of the chain (compression, accesslog, capture middleware do)
+	{method: "GET", pattern: "/cap/x", hid: 17, kind: "static", chain: "capture"},
+	{method: "GET", pattern: "/cap/:id", hid: 18, kind: "param", chain: "capture"},
 	{method: "GET", pattern: "/x/s", hid: 13, kind: "static"},
 	{method: "GET", pattern: "/x/d/:id", hid: 14, kind: "param"},
 	{method: "GET", pattern: "/vs", ver: "v1", hid: 20, kind: "static"},
@@ -216,6 +219,8 @@ type Prog struct {
 	Status int
 	Size   int
 	Cancel bool `json:",omitempty"` // the request context is cancelled while the handler runs (before it writes)
+	// mode X: panic with http.ErrAbortHandler (what httputil.ReverseProxy panics with) instead of a string
+	AbortPanic bool `json:",omitempty"`
 }
 
 func (p Prog) header() string {
@@ -223,17 +228,21 @@ func (p Prog) header() string {
 	if p.Cancel {
 		c = 1
 	}
-	return fmt.Sprintf("%s,%d,%d,%d", p.Mode, p.Status, p.Size, c)
+	ap := 0
+	if p.AbortPanic {
+		ap = 1
+	}
+	return fmt.Sprintf("%s,%d,%d,%d,%d", p.Mode, p.Status, p.Size, c, ap)
 }
 
 func parseProg(s string) Prog {
 	f := strings.Split(s, ",")
-	if len(f) != 4 {
+	if len(f) != 5 {
 		return Prog{Mode: "Q"}
 	}
 	st, _ := strconv.Atoi(f[1])
 	n, _ := strconv.Atoi(f[2])
-	return Prog{Mode: f[0], Status: st, Size: n, Cancel: f[3] == "1"}
+	return Prog{Mode: f[0], Status: st, Size: n, Cancel: f[3] == "1", AbortPanic: f[4] == "1"}
 }
 
 // cancel functions of the requests whose context the handler cancels, by X-Cancel-Id
@@ -245,6 +254,7 @@ var (
 )
 
 type Req struct {
+	Outer  bool `json:",omitempty"` // the request context already carries a span of an outer tracing layer (another provider)
 	Abort  bool `json:",omitempty"` // kind AW: the client aborts the request while the handler runs
 	Method string
 	Path   string
@@ -325,6 +335,9 @@ func runProg(c *router.Context, hid int) {
 		c.Response.WriteHeader(500)
 		_, _ = c.Response.Write(body[:p.Size])
 	case "X":
+		if p.AbortPanic {
+			panic(http.ErrAbortHandler)
+		}
 		panic("probe panic")
 	}
 }
@@ -332,6 +345,14 @@ func runProg(c *router.Context, hid int) {
 func handler(hid int) router.HandlerFunc { return func(c *router.Context) { runProg(c, hid) } }
 
 // abortMW answers itself and aborts when the program says so; otherwise passes on.
+// passWriter forwards everything; it is what a response-replacing middleware leaves in c.Response.
+type passWriter struct{ http.ResponseWriter }
+
+func captureMW(c *router.Context) {
+	c.Response = &passWriter{c.Response}
+	c.Next()
+}
+
 func abortMW(c *router.Context) {
 	p := parseProg(c.Request.Header.Get("X-Prog"))
 	if p.Mode == "B" {
@@ -349,6 +370,8 @@ func register(r *router.Router, c Cfg) {
 		}
 		var hs []router.HandlerFunc
 		switch d.chain {
+		case "capture":
+			hs = append(hs, captureMW)
 		case "abort":
 			hs = append(hs, abortMW)
 		case "panic":
@@ -606,6 +629,9 @@ type renv struct {
 	srv *httptest.Server
 }
 
+// an outer tracing layer with its own provider (its spans are not the app's and are not counted)
+var outerTracer = sdktrace.NewTracerProvider().Tracer("outer")
+
 var wireClient = &http.Client{CheckRedirect: func(*http.Request, []*http.Request) error { return http.ErrUseLastResponse }}
 
 // wireOK: requests a real client can send unchanged and whose body net/http does not suppress
@@ -643,6 +669,10 @@ func newRequest(q Req) *http.Request {
 	req.Header.Set("X-Prog", q.Prog.header())
 	if q.Ver != "" {
 		req.Header.Set("X-API-Version", q.Ver)
+	}
+	if q.Outer {
+		ctx, _ := outerTracer.Start(req.Context(), "outer "+q.Method) // never ended: it belongs to the outer layer
+		req = req.WithContext(ctx)
 	}
 	if q.Prog.Cancel {
 		ctx, cancel := context.WithCancel(req.Context())
@@ -1052,7 +1082,7 @@ func genProg(r *hx.Rand, chain string) Prog {
 		}
 	case "panic":
 		if r.Chance(2, 3) {
-			return Prog{Mode: "X", Status: 0, Size: 0}
+			return Prog{Mode: "X", Status: 0, Size: 0, AbortPanic: r.Chance(1, 3)}
 		}
 	}
 	switch r.Intn(8) {
@@ -1090,6 +1120,7 @@ func classes() []classGen {
 		{"main-post", func(r *hx.Rand) Req { return q("main-post", "POST", hx.Pick(r, []string{"/only/post", "/op/" + v(r)}), verHdr(r)) }},
 		{"abort-chain", func(r *hx.Rand) Req { return q("abort-chain", "GET", hx.Pick(r, []string{"/auth/x", "/auth/" + v(r)}), verHdr(r)) }},
 		{"panic-chain", func(r *hx.Rand) Req { return q("panic-chain", "GET", "/boom", verHdr(r)) }},
+		{"capture-chain", func(r *hx.Rand) Req { return q("capture-chain", "GET", hx.Pick(r, []string{"/cap/x", "/cap/" + v(r)}), verHdr(r)) }},
 		{"excluded", func(r *hx.Rand) Req {
 			return q("excluded", "GET", hx.Pick(r, []string{"/x/s", "/x/d/" + v(r), "/x/none", "/x/vs"}), verHdr(r))
 		}},
@@ -1149,6 +1180,7 @@ func genReq(r *hx.Rand, c Cfg) Req {
 	q := cl.gen(r)
 	q.Prog = genProg(r, chainOf(q, c))
 	q.Prog.Cancel = r.Chance(1, 6)
+	q.Outer = r.Chance(1, 5)
 	return q
 }
 
@@ -1206,6 +1238,12 @@ func count(st *hx.Stats, c Cfg, q Req) bool {
 	if q.Prog.Cancel {
 		st.Count("context-cancelled-mid-flight")
 	}
+	if q.Outer {
+		st.Count("outer-span-in-request-context")
+	}
+	if q.Prog.AbortPanic {
+		st.Count("panic(http.ErrAbortHandler)")
+	}
 	if (f.treeRoute.ok && f.treeRoute.pattern == "") || (f.vRoute.ok && f.vRoute.pattern == "") {
 		st.Count("empty-pattern(_unmatched)")
 	}
@@ -1231,6 +1269,13 @@ func witnesses() []Case {
 			{Method: "GET", Path: "/nope", Prog: e, Class: "404"},
 		}},
 		{Kind: "R", C: Cfg{Obs: true}, Q: Req{Method: "OPTIONS", Path: "*", Prog: e, Class: "non-origin-target"}},
+		{Kind: "R", C: Cfg{Obs: true}, Q: Req{Method: "GET", Path: "/cap/7", Prog: Prog{Mode: "E", Status: 404, Size: 17}, Class: "capture-chain"}},
+		{Kind: "R", C: Cfg{Obs: true}, Q: Req{Method: "GET", Path: "/boom", Prog: Prog{Mode: "X", AbortPanic: true}, Class: "panic-chain"}},
+		{Kind: "A", C: Cfg{Obs: true}, H: []Req{
+			{Method: "GET", Path: "/s/a", Prog: e, Outer: true, Class: "main-static"},
+			{Method: "GET", Path: "/cap/7", Prog: Prog{Mode: "E", Status: 404, Size: 17}, Class: "capture-chain"},
+			{Method: "GET", Path: "/boom", Prog: Prog{Mode: "X", AbortPanic: true}, Class: "panic-chain"},
+		}},
 		{Kind: "R", C: Cfg{Obs: true, Compiled: true, Versioning: true, NoRoute: true}, Q: Req{Method: "GET", Path: "relative", Prog: e, Class: "non-origin-target"}},
 		{Kind: "R", C: Cfg{Obs: true, Versioning: true, PathVer: true}, Q: Req{Method: "GET", Path: "/api/v17/vd/7", Prog: e, Class: "path-ver"}},
 		{Kind: "R", C: Cfg{Obs: true, Versioning: true, PathVer: true}, Q: Req{Method: "GET", Path: "/api/v99-beta/vs", Prog: e, Class: "path-ver"}},
